@@ -197,6 +197,10 @@ LAW(L1_list_history, RC, 30000, 1500000, 400, "a bulk update whose rejected entr
           for (int id : ma) if (!s.pl.hasParameter(w.objs[id].name)) { double v = c.oneIn(6) ? anyVal(c) : insideVal(c, w.objs[id].cons); s.e.push_back({w.objs[id].name, v, -1}); s.pl.addParameter(Parameter(w.objs[id].name, v)); }
         }
         bool useVec = c.flag();
+        // the other list itself as the source: it may hold the very same objects as the target (shared entries) next to entries of its own
+        bool fromSlot = route == 1 && !mb.empty() && c.oneIn(3);
+        if (fromSlot) { s.e.clear(); for (int id : mb) s.e.push_back(w.objs[id]); c.desc << "[source=L" << B << "]"; }
+        const ParameterList& srcList = fromSlot ? lb : s.pl;
         c.desc << (route == 0 ? "setParametersValues" : route == 1 ? (testOnly ? "testParametersValues" : useVec ? "matchParametersValues+vec" : "matchParametersValues") : "setAllParametersValues") << showSrc(s);
         // model
         bool missing = false; if (route == 2) for (int id : ma) { bool f = false; for (auto& e : s.e) if (e.name == w.objs[id].name) f = true; if (!f) missing = true; }
@@ -206,9 +210,9 @@ LAW(L1_list_history, RC, 30000, 1500000, 400, "a bulk update whose rejected entr
         vector<Obj> snapshot = w.objs;
         vector<size_t> upd; bool ret = false;
         try {
-          if (route == 0) la.setParametersValues(s.pl);
-          else if (route == 1) ret = testOnly ? la.testParametersValues(s.pl) : la.matchParametersValues(s.pl, useVec ? &upd : nullptr);
-          else la.setAllParametersValues(s.pl);
+          if (route == 0) la.setParametersValues(srcList);
+          else if (route == 1) ret = testOnly ? la.testParametersValues(srcList) : la.matchParametersValues(srcList, useVec ? &upd : nullptr);
+          else la.setAllParametersValues(srcList);
           CHECK(!(route == 2 && missing), "setAllParametersValues returned although the source lacks one of the list's names");
           CHECK(!anyBad, "bulk update returned although a targeted value is rejected by its constraint (rejected entry is targeted entry #" << firstBadPos << ")");
           if (!testOnly) for (auto& e : s.e) { int t = w.find(ma, e.name); if (t >= 0) w.objs[ma[t]].v = e.v; }
